@@ -25,7 +25,7 @@ from __future__ import annotations
 from hypothesis import strategies as st
 
 PREC = {"+": 100, "-": 100, "*": 200, "/": 200, "%in%": 200, ":": 300, "^": 500}
-NAMES = ["a", "b", "c", "d", "e"]
+NAMES = ["a", "b", "c", "d", "e", "x.y"]
 QNAMES = ["a b", "x|y", "a:b", "b:a", "1z", "a+b", "weird~name", "ü", "(p)", "a:b:c"]
 CALLS = [
     ("log(a)", ["a"]),
